@@ -123,6 +123,13 @@ def make_cases(rng, tier):
                     if params[0] == "f32" and cls in ("int", "uint", "float") and not f32_exact(v):
                         continue        # declared domain: float32 targets only for exactly representable values (as for fields)
                     add(block([], ("expr", emath(matom(acall(call("func", fn, [("var", "src")])))))), [inj_func(fn), inj_val("src", v)])
+    # small integers around the signed-byte and byte boundaries, handed to every integer parameter kind from each number class
+    for z in (127, 128, 129, -128, -129, 255, 256, -1):
+        for fn in ("IdI", "IdI8", "IdI16", "IdI64", "IdU", "IdU8", "IdU16"):
+            srcs = [tv_int("i64", z), tv_float("f64", float(z))] + ([tv_int("u16", z)] if z >= 0 else [])
+            for v in srcs:
+                add(block([], ("expr", emath(matom(acall(call("func", fn, [("var", "src")])))))), [inj_func(fn), inj_val("src", v)])
+        add(block([], ("expr", emath(matom(acall(call("func", "IdI", [("const", kint(z))])))))), [inj_func("IdI")])
     # unsigned arguments at and above 2^63 (exactly representable as floats) handed to float parameters, and to every integer kind
     for z in (2 ** 63, 3 * 2 ** 62, 2 ** 63 + 2048, 2 ** 64 - 2048):
         for fn in ("IdF64", "IdU64", "IdI64", "IdU", "IdU8") + (("IdF32",) if z in (2 ** 63, 3 * 2 ** 62) else ()):
@@ -158,6 +165,12 @@ def make_cases(rng, tier):
     # a local bound to a pointer into the host and then re-assigned is rebound; the host cell is not written
     add(block([assign(("var", "v"), "=", ("math", matom(acall(call("method", "h.Slot", []))))), assign(("var", "v"), "=", ("math", mint(42)))], rd("h.I64")), [host()])
     add(block([assign(("var", "v"), "=", ("math", matom(acall(call("method", "h.Slot", []))))), assign(("var", "v"), "=", ("math", mint(42)))], rd("v")), [host()])
+    # the SAME compiled rule executed first WITHOUT a name injected (its assignment then binds a local) and then WITH it injected
+    # as a pointer (the assignment must now write the injected scalar): nothing about a name may be remembered between executions
+    for tgt_t, v in (("i64", 1), ("u8", 3), ("f64", None)):
+        c0 = len(cases)
+        add(block([assign(("var", "Total"), "=", ("math", mint(7))), assign(("var", "Total"), "+=", ("math", mint(1)))]), [])
+        cases[c0]["reinject"], cases[c0]["inject2"] = True, [inj_ptr("Total", tv_float("f64", 0.5) if v is None else tv_int(tgt_t, v))]
     # reads of missing things
     add(block([], rd("h.Nope")), [host()])
     add(block([], rd("nope")), [host()])
